@@ -307,6 +307,17 @@ def pcr_runs(rnd, thorough=False):
                     yield {"lines": L(*bwd), "tag": "pcr-run", "meta": {"refs": [(k * stride + 1 + i, i * stride) for i in range(k)]}}
 
 
+def pcr_order(thorough=False):
+    """pass-order cases of the size loop: X (forward, spans Y) is undecided in the first pass and decidable in the second
+    once Y is sized; Z (backward, spans X) comes last and stays undecided in the first pass. The loop must go on to a
+    second pass - not break the tie early - or X gets the 16-bit form although 8 bits suffice. Returns (base, suffix)."""
+    for f in (range(112, 124) if thorough else (116, 117, 118, 119, 120)):
+        for mnx, mnz in ((("LEAX", "LEAU"), ("LDA", "LDX"), ("LDY", "LEAU")) if thorough else (("LEAX", "LEAU"), ("LDY", "LDA"))):
+            for pad in (0, 1, 2):
+                base = ["T0 NOP"] + [" NOP"] * pad + [" %s T1,PCR" % mnx, " LEAY T2,PCR", "T2 RMB %d" % f, "T1 NOP"]
+                yield base, [" %s T0,PCR" % mnz, " NOP"]
+
+
 MN_ALL = [i.mnemonic for i in INSTRUCTIONS]
 OPERANDS = ["", "#$10", "#5", "$10", "$1234", "<$10", ">$10", "[$1234]", ",X", ",Y+", ",--U", "[,S++]", "5,X", "-5,Y", "200,U", "$1234,S", "A,X", "[D,Y]",
             "L1", "L2", "L1+1", "L2-2", "#L1", "[L2]", "L1,PCR", "[L2,PCR]", "5,PCR", "C1", "#C1", "C1,X", "[C1]", "C2", "#C2+1",
